@@ -149,6 +149,29 @@ for k, v in TECH_ADD8.items():
     t, txt, note, ref = CLAIMED[k]
     CLAIMED[k] = (t + v, txt, note, ref)
 
+TECH_ADD9 = {
+ "C01": "; sync/atomic writes into tree fields count as writes (R01.2); identity fields of a *Template parameter are written only while it is built (R01.11)",
+ "C02": "; no struct holding a Mutex/RWMutex is passed or copied by value (R02.6)",
+ "C04": "; a function that switches the tokenizer's source restores it on every path to every return (R04.11)",
+ "C06": "; evaluation on behalf of a context stays in that context: no evaluator call on a fresh or foreign context under a sandboxed one (R06.11)",
+ "C07": "; the in-text interpolator is handed template source only, never rendered or escaped output (R07.10)",
+ "C08": "; every text handed to TokenizeExpression and every token value handed to AddToken is a piece of the source on every edge — parameter, slice, trimmed or split piece, never Join/Replace/ToLower/Sprintf/concatenation (R08.14); the operand of a Unary/BinaryNode flows into another node only in a function that reads that node's operator (R08.15)",
+ "C09": "; the same piece-of-source rule for tag headers (R09.18)",
+ "C10": "; a re-entrant function never brackets nested work with two different constants stored to one field of shared state (R10.11); no element-wise copy of a []Node in the parser is controlled by a test over the element (R10.12)",
+ "C11": "; tables of parsed expressions (map[string]Node) in the parser only grow (R11.11)",
+ "C12": "; the macro table of a context is written only by RenderContext, MacroNode, ImportNode and FromImportNode methods (R12.10); a macro is looked up by a FunctionNode's bare name only where its moduleExpr was tested nil (R12.11)",
+ "C14": "; the tree stored in a Template comes from Parser.Parse on every edge (R14.10); lengths, positions and counters are never converted to integer types narrower than 32 bits unless masked first (R14.11)",
+ "C15": "; the append of a Loader parameter to Engine.loaders is controlled only by a nil test or an identity comparison of the parameter (R15.10)",
+ "C16": "; every constructor that stores a tree in a Template sets every field some sibling constructor derives from the tree (R16.12)",
+ "C17": "; a deferred function that assigns the error result does not overwrite an error already there (R17.7)",
+ "C18": "; variables read back from a RenderContext map are data; elements of maps held in fields are not assumed fresh (R18.2)",
+ "C19": "; no interface value is compared for equality with a boxed numeric constant (R19.6)",
+ "C20": "; the resolver of x.name reaches reflect.Value.MapIndex through static calls — attribute access on a map of any type is a key lookup (R20.8)",
+}
+for k, v in TECH_ADD9.items():
+    t, txt, note, ref = CLAIMED[k]
+    CLAIMED[k] = (t + v, txt, note, ref)
+
 NOT_YET = "static rule for this property not implemented yet at this commit (planned, see DESIGN.md §2)"
 NA = {}
 
